@@ -556,12 +556,12 @@ PAIR = dict(seq=t_seq, dep=t_dep, condprim=t_condprim)
 
 # quick tier selections (thorough = everything)
 Q_SINGLE_ALL = ("arith", "cond_val", "cost", "const")
-Q_SINGLE_FEW = {"ret": ("flip_enum", "flip_reinforce", "normal_reparam", "mv_normal_reparam"),
+Q_SINGLE_FEW = {"ret": ("normal_reparam", "mv_normal_reparam"),
                 "cond": ("flip_enum", "flip_reinforce", "normal_reparam"),
                 "cond_lit": ("flip_enum", "flip_reinforce", "normal_reparam")}
 Q_REPS = ("flip_enum", "flip_reinforce", "normal_reparam")
 Q_PARTNERS = ("flip_enum", "flip_reinforce", "normal_reparam", "normal_reinforce", "mv_normal_diag_reparam",
-              "baseline(flip_reinforce)", "reinforce(categorical)", "geometric_reinforce", "beta_implicit")
+              "baseline(flip_reinforce)", "reinforce(categorical)")
 
 
 # --------------------------------------------------------------------------------------------
@@ -650,7 +650,9 @@ def _run(tname, template, names, tier, seed):
                 except Exception as e:  # the estimator of an exported primitive must run on its documented inputs
                     ctx.ev((ident, "exception"), nontrivial=False)
                     ctx.note("estimator_raised")
-                    ctx.fail(comp, "jvp_estimate", tname, _exc(e), dict(program=prog, theta=theta, error=str(e)[:300]))
+                    # a primitive that already raises on the simplest program: one signature for all templates
+                    icls = "any_program" if (len(names) == 1 and _raises_alone(specs[0], n_cont) == _exc(e)) else tname
+                    ctx.fail(comp, "jvp_estimate", icls, _exc(e), dict(program=prog, theta=theta, error=str(e)[:300]))
                     break
                 if grad_ok is None:
                     grad_ok = False
@@ -718,7 +720,7 @@ def _run(tname, template, names, tier, seed):
                 bad = None
                 for p, g, t in zip(paths, grads, tang):
                     ctx.ev((ident, "grad", table_key(p)))
-                    if not tclose(g, t, TOL_P):
+                    if not tclose(g, t, TOL_T):
                         bad = dict(grad=g, jvp_tangent=t, prob=p.prob)
                         break
                 if bad is not None:
@@ -727,7 +729,6 @@ def _run(tname, template, names, tier, seed):
                     ctx.note("check_G_grad_eq_jvp")
             # ---------------------------------------------------------------- estimate
             if est_ok:
-                by_table = {table_key(p): pr for p, pr in zip(paths, prim)}
                 try:
                     epaths, etotal = adevseam.explore(lambda: J_est(key, th32), n_cont=n_cont)
                 except Exception as e:
@@ -736,16 +737,18 @@ def _run(tname, template, names, tier, seed):
                     ctx.fail("Expectation", "estimate", "any_program", _exc(e), dict(program=prog, theta=theta, error=str(e)[:300]))
                     epaths = None
                 if epaths is not None:
+                    # (sites whose result only feeds the tangent are dead code for `estimate`, so the two trees may
+                    # differ in shape: compare the distributions of the value, not the decision tables)
+                    for ep in epaths:
+                        ctx.ev((ident, "estimate", table_key(ep)))
                     bad = None
-                    if len(epaths) != len(paths) or abs(etotal - 1.0) > 1e-6:
-                        bad = dict(n_estimate_paths=len(epaths), n_jvp_paths=len(paths), total=etotal)
+                    if abs(etotal - 1.0) > 1e-6:
+                        bad = dict(total=etotal)
                     else:
-                        for ep in epaths:
-                            ctx.ev((ident, "estimate", table_key(ep)))
-                            want = by_table.get(table_key(ep))
-                            if want is None or not tclose(float(ep.result), want, TOL_P):
-                                bad = dict(estimate=float(ep.result), jvp_primal=want)
-                                break
+                        d = weighted_multiset_diff([(ep.prob, (float(ep.result),)) for ep in epaths],
+                                                   [(a_, (b_,)) for a_, b_ in zip(prob, prim)], (TOL_P,))
+                        if d is not None:
+                            bad = dict(disagreement=d, estimates=[dict(prob=ep.prob, value=float(ep.result)) for ep in epaths][:12])
                     if bad is not None:
                         ctx.fail("Expectation", "estimate", "any_program", "estimate!=program_value", dict(detail, **bad))
                     else:
@@ -782,5 +785,8 @@ def cases(tier, seed):
     progs = _programs(tier)
     if os.environ.get("VERIF_SUBSET"):
         progs = progs[:: int(os.environ["VERIF_SUBSET"])]
+    only = os.environ.get("VERIF_ONLY")
     for tname, t, names in progs:
+        if only and not any(o in f"{tname}:{'|'.join(names)}" for o in only.split(",")):
+            continue
         yield Case(f"{tname}:{'|'.join(names)}", _run(tname, t, names, tier, seed), dict(template=tname, primitives=list(names)))
